@@ -142,9 +142,40 @@ func c01Corpus(ctx *core.Ctx) {
 	}
 }
 
+// sweepSizes: the sizes of the size sweeps for this tier.
+func sweepSizes(ctx *core.Ctx) []int {
+	if ctx.Thorough() {
+		return gen.SweepSizes
+	}
+	return gen.SweepSizesSmall
+}
+
+// c01Sweeps: the size sweeps (one dimension of a model scaled through sizes up to 128, long names, long lines) under the
+// canonical layout and every uniform style.
+func c01Sweeps(ctx *core.Ctx) {
+	for i, tm := range gen.SweepModelsDSL(sweepSizes(ctx)) {
+		if !ctx.Mine(1<<26 + i) {
+			continue
+		}
+		if ctx.Expired() {
+			ctx.Cap("wall-clock cap in the size sweeps")
+			return
+		}
+		ctx.Eval(1)
+		forLayouts(ctx, tm.Tag, tm.M, 0, 0, func(r *ref.Rendered, lc *layoutCase) {
+			if c01Text(ctx, tm.Tag, r.Text) {
+				ctx.Flag("c01:sweeps")
+			} else {
+				ctx.Count("rendered_texts_not_accepted", 1)
+			}
+		})
+	}
+}
+
 func c01Run(ctx *core.Ctx) {
 	defer c01Lexemes(ctx)
 	defer c01Corpus(ctx)
+	c01Sweeps(ctx)
 	models := gen.DSLModels(ctx.Thorough())
 	for i, tm := range models {
 		if !ctx.Mine(i) || tm.M.Module != "" {
@@ -215,7 +246,7 @@ func c01Lexemes(ctx *core.Ctx) {
 func init() {
 	core.Register(&core.Check{
 		ID: "C01",
-		Rule: "every rendering (canonical + every single layout deviation + every uniform style; thorough: single deviations on top of styles, shapes up to 4 leaves) of every generated full model " +
+		Rule: "size sweeps (one dimension of a model - operands of a union/intersection, relations of a type, types, conditions, parameters of a condition cycling through all 24 types, entries of a restriction list - scaled through 11 (quick) / 26 (thorough) sizes between 4 and 128 around the thresholds sorting and buffering code commonly has, contents in scrambled order; names of 64..1100 characters; one-line condition expressions of 300..4200 characters; declarations before and after the large part) under the canonical layout and every uniform style; every rendering (canonical + every single layout deviation + every uniform style; thorough: single deviations on top of styles, shapes up to 4 leaves) of every generated full model " +
 			"(all DSL-conform rewrite shapes, identifier classes in every position incl. keywords, restriction lists, all parameter types, expression alphabet); " +
 			"plus every string of <= 3 lexemes over the 38-lexeme DSL alphabet appended to the 7 valid model prefixes that is accepted as a model, plus every accepted DSL text of the repository's shared test-data corpus; " +
 			"each accepted text goes through parse/print/parse/print/parse in memory (same pointer) and through the JSON-string API. " +
@@ -227,6 +258,9 @@ func init() {
 		Technique: "bounded exhaustive enumeration of models x layouts; differential oracle between pipeline stages",
 		Run:       c01Run,
 		Finish: func(r *core.Result) error {
+			if !r.Flags["c01:sweeps"] {
+				return fmt.Errorf("C01: size sweeps never exercised")
+			}
 			if !r.Flags["accepted"] || !r.Flags["with-conditions"] {
 				return fmt.Errorf("C01: no accepted text / no conditions exercised")
 			}
